@@ -2,7 +2,9 @@ package main
 
 import (
 	"fmt"
+	"io"
 	"math/rand"
+	"runtime"
 	"sort"
 	"strings"
 	"sync"
@@ -570,6 +572,82 @@ func c08StoreRound(r *Run, idx int) {
 
 // ---------------------------------------------------------------- entry point
 
+// c08NoInvention: "every event it delivers corresponds to one real hit and is delivered once", seen from the cache's
+// public face. Key B is read until its frequency estimate is saturated (which also pushes every pending event through
+// the stripes); key A must then stand at exactly 1 (its insertion) - so at least one of A's counters is its own and
+// nothing B does can raise A's estimate any more. A is hit h times (h <= 12, fewer than a stripe holds, so the events
+// stay pending), one of the cache's public calls that touch the policy runs (SaveCache, Wait, Range, Len,
+// EstimatedSize, Stats), and B is read again from several goroutines until the stripes have been drained. However
+// many of A's events were dropped on the way, its estimate may not exceed 1 + h: anything above is a hit that never
+// happened. (Aging only lowers estimates.)
+func c08NoInvention(r *Run, idx int) {
+	rng := r.Rng(int64(5700 + idx))
+	c, err := theine.NewBuilder[int, int](1000).Build()
+	if err != nil {
+		r.Broken("build: %v", err)
+		return
+	}
+	defer c.Close()
+	st := c.VerifStore()
+	a, b := 1000+rng.Intn(100000), 200000+rng.Intn(100000)
+	c.Set(a, 1, 1)
+	c.Set(b, 2, 1)
+	c.Wait()
+	pump := func(g int) {
+		var wg sync.WaitGroup
+		for i := 0; i < g; i++ {
+			wg.Add(1)
+			go func() {
+				defer wg.Done()
+				for j := 0; j < 2048; j++ {
+					c.Get(b)
+				}
+			}()
+		}
+		wg.Wait()
+	}
+	pump(1)
+	pump(runtime.GOMAXPROCS(0))
+	if st.VerifEstimate(b) < 15 || st.VerifEstimate(a) != 1 {
+		r.Inconclusive(1) // B not saturated, or A shares all its counters with B
+		return
+	}
+	h := 1 + rng.Intn(12)
+	for i := 0; i < h; i++ {
+		c.Get(a)
+	}
+	op := []string{"SaveCache", "Wait", "Range", "Len+EstimatedSize+Stats", "SaveCache twice"}[idx%5]
+	switch op {
+	case "SaveCache":
+		_ = c.SaveCache(1, io.Discard)
+	case "SaveCache twice":
+		_ = c.SaveCache(1, io.Discard)
+		_ = c.SaveCache(1, io.Discard)
+	case "Wait":
+		c.Wait()
+	case "Range":
+		c.Range(func(int, int) bool { return true })
+	default:
+		_ = c.Len() + c.EstimatedSize()
+		_ = c.Stats()
+	}
+	mid := st.VerifEstimate(a)
+	pump(1)
+	pump(runtime.GOMAXPROCS(0))
+	c.Wait()
+	end := st.VerifEstimate(a)
+	r.Eval(1)
+	r.Count("no_invention_rounds", 1)
+	if end == uint(1+h) {
+		r.Count("no_invention_rounds_all_hits_delivered", 1)
+	}
+	r.Distinct(fmt.Sprintf("no-invention/%s/h=%d", op, h))
+	if mid > uint(1+h) || end > uint(1+h) {
+		r.Violate("read-events-invented/estimate-above-real-hits", fmt.Sprintf("round %d: key %d was inserted once and hit %d times; after %s its frequency estimate was %d, after the stripes were drained %d (at most %d is possible: the key's estimate stood at 1 with every other key in use saturated)", idx, a, h, op, mid, end, 1+h),
+			map[string]any{"round": idx, "hits": h, "operation_between": op, "estimate_after_operation": mid, "estimate_at_end": end})
+	}
+}
+
 func runC08(r *Run) {
 	r.Rule("case = one complete interleaving of 2-4 readers adding to one real Buffer stripe under the cooperative scheduler (yield before every atomic step of Add/Free), or one store round (readers during stalled maintenance, then quiescent stripe check + 4096-hit epilogue). Non-trivial = >=2 readers were inside Add at the same time (distinct by full schedule signature), or a store round (distinct by stall method/readers/size)")
 	r.Assume("one goroutine runs at a time under the cooperative scheduler, so the interleaving is exactly the recorded schedule",
@@ -620,6 +698,11 @@ func runC08(r *Run) {
 		sort.Ints(idxs)
 		for _, i := range idxs {
 			c08StoreRound(r, i)
+		}
+		for _, i := range idxs {
+			for j := 0; j < 5; j++ {
+				c08NoInvention(r, i*5+j)
+			}
 		}
 	}
 }
